@@ -399,6 +399,8 @@ def _collect_extensions(  # noqa: C901
                     )
                 else:
                     continue
+            elif name in type_defs:
+                raise ExtensionError('Duplicate type "%s"' % name, [definition])
             else:
                 type_defs[name] = definition
 
@@ -413,6 +415,10 @@ def _collect_extensions(  # noqa: C901
                     )
                 else:
                     continue
+            elif name in directive_defs:
+                raise ExtensionError(
+                    'Duplicate directive "@%s"' % name, [definition]
+                )
             else:
                 directive_defs[name] = definition
 
